@@ -115,6 +115,26 @@ VAR_CTX = {"sort_v": "sort", "keysort_v": "keysort"}
 TRUE = ('a', 'true')
 
 
+def from_packed(p):
+    """compact JSON image of a term printed by the spec (Coll!Pk) -> canonical tuple of lib/terms.py"""
+    k = p[0]
+    if k == 0:
+        return ('i', p[1])
+    if k == 1:
+        return ('a', "".join(map(chr, p[1])))
+    if k == 2:
+        return ('c', "".join(map(chr, p[1])), tuple(from_packed(x) for x in p[2]))
+    if k == 3:
+        return ('v', "".join(map(chr, p[1])))
+    if k == 4:
+        return ('f', int("".join(map(chr, p[1])), 16))
+    if k == 5:
+        return terms.mk_list([from_packed(x) for x in p[1]])
+    if k == 6:
+        return terms.mk_list([from_packed(x) for x in p[1]], from_packed(p[2]))
+    raise ValueError("bad packed term %r" % (p,))
+
+
 def list_items(t):
     items = []
     while t[0] == 'c' and t[1] == '.' and len(t[2]) == 2:
@@ -138,7 +158,7 @@ def lit_shape(t):
 
 def goal_of(v):
     """-> (goal text, context, shape)"""
-    args = [terms.from_tla(a) for a in v["args"]]
+    args = [from_packed(a) for a in v["args"]]
     op = v["op"]
     if op in VAR_CTX:
         items, tail = list_items(args[0])
@@ -161,15 +181,15 @@ def query_of(v):
 def expected_of(v):
     k = v["k"]
     if k == "ok":
-        return ("ok", terms.from_tla(v["v"]))
+        return ("ok", from_packed(v["v"]))
     if k == "true":
         return ("ok", TRUE)
     if k == "fail":
         return ("fail",)
     if k == "err":
-        return ("err", terms.from_tla(v["v"]))
+        return ("err", from_packed(v["v"]))
     if k == "bag":
-        return ("bag", terms.from_tla(v["v"]))
+        return ("bag", from_packed(v["v"]))
     raise ValueError(k)
 
 
@@ -295,8 +315,8 @@ def enc_obs(tt, o):
 
 
 def hist_parts(v):
-    init, _ = list_items(terms.from_tla(v["args"][0]))
-    acts, _ = list_items(terms.from_tla(v["args"][1]))
+    init, _ = list_items(from_packed(v["args"][0]))
+    acts, _ = list_items(from_packed(v["args"][1]))
     return init, acts
 
 
@@ -320,11 +340,13 @@ def run(tier):
     rep.rule = ("TLC enumerates (operation, inputs): every list of length <= 4 (thorough 5) over 7 mixed terms for the sorting "
                 "predicates, pair lists with positional values for keysort/pairs, lists over 3 terms for the polymorphic list "
                 "predicates, all pairs of ordered sets over 4 (thorough 6) elements, all (set, element) over 7 elements, and all "
-                "assoc update histories of length <= 4 (thorough 5, plus 100 random walks of length 30 with all one-step "
+                "assoc update histories of length <= 4 (thorough 5, plus 40 random walks of length 30 with all one-step "
                 "deviations, 6 keys) over 5 keys from the empty map and from list_to_assoc-built maps. distinct = distinct (operation, coverage class: length, number of "
                 "distinct elements, sortedness, term kinds, set overlap, element position) and, for assoc, distinct history "
                 "prefixes whose recorded tree and observations were validated")
+    import gc
     import time
+    gc.disable()        # hundreds of thousands of small vectors, no reference cycles: the collector only costs time
     phases = {}
     t0 = time.time()
     res, vecs = common.generate("MC_C14", "MC_C14_%s.cfg" % tier, workers=8, timeout=3000)
@@ -332,7 +354,7 @@ def run(tier):
     phases["tlc_generate"] = round(time.time() - t0, 1)
     sims = []
     if tier == "thorough":
-        sres, sims = common.generate("MC_C14", "MC_C14_sim.cfg", workers=4, timeout=1800, simulate=100, depth=31,
+        sres, sims = common.generate("MC_C14", "MC_C14_sim.cfg", workers=4, timeout=1800, simulate=40, depth=31,
                                      tag="MC_C14-sim")
         rep.add_tlc(sres)
     cases = [v for v in vecs if v["g"] != "assoc"]
@@ -408,45 +430,48 @@ def run(tier):
             lines.append(line)
             # spec -> impl cross-check of the final state printed by MC_C14
             final_list = obs[2][1]
-            if not terms.variant(terms.from_tla(v["v"]), final_list):
+            if not terms.variant(from_packed(v["v"]), final_list):
                 rep.violation("assoc final list differs: %s expected=%s got=%s" % (
-                    hist_text(init, acts), terms.tla_text(v["v"]), terms.show(final_list)),
+                    hist_text(init, acts), terms.text(from_packed(v["v"])), terms.show(final_list)),
                     {"kind": "hist", "vector": v, "query": hist_query(v, keys)})
     rep.extra["assoc_histories_validated"] = len(lines)
     if lines:
         wdir = os.path.join(common.WORK, "c14")
         os.makedirs(wdir, exist_ok=True)
-        path = os.path.join(wdir, "assoc-%s-%d.ndjson" % (tier, os.getpid()))
-        with open(path, "w") as f:
-            f.write(json.dumps({"terms": tt.rows, "keys": [tt.id(k) for k in keys]}) + "\n")
-            for ln in lines:
-                f.write(json.dumps(ln) + "\n")
+        header = json.dumps({"terms": tt.rows, "keys": [tt.id(k) for k in keys]})
         t0 = time.time()
-        tres = tlc_ok(run_tlc("Trace_C14", "Trace_C14.cfg", workers=8, timeout=3000, env_extra={"TRACE": path}),
-                      "Trace_C14")
-        rep.add_tlc(tres)
+        CH = 30000            # lines per TLC run: bounds the memory of the deserialised trace
+        for ci, chunk in batches(lines, CH):
+            path = os.path.join(wdir, "assoc-%s-%d-%d.ndjson" % (tier, os.getpid(), ci))
+            with open(path, "w") as f:
+                f.write(header + "\n")
+                for ln in chunk:
+                    f.write(json.dumps(ln) + "\n")
+            tres = tlc_ok(run_tlc("Trace_C14", "Trace_C14.cfg", workers=8, timeout=3000, env_extra={"TRACE": path},
+                                  tag="Trace_C14-%d" % ci), "Trace_C14")
+            rep.add_tlc(tres)
+            if tres.distinct != 64 + len(chunk):
+                raise common.ToolError("Trace_C14 evaluated %d states for %d recorded lines" % (tres.distinct, len(chunk)))
+            for b in tres.printed():
+                v = line_info[b["id"]]
+                init, acts = hist_parts(v)
+                why = ",".join(sorted(b["bad"]))
+                last = terms.text(acts[-1]) if acts else "list_to_assoc"
+                rep.violation("assoc why=%s after=%s %s" % (why, last, hist_text(init, acts)),
+                              {"kind": "hist", "vector": v, "why": why, "query": hist_query(v, keys)})
+            if not os.environ.get("VERIF_KEEP"):
+                try:
+                    os.remove(path)
+                except OSError:
+                    pass
         phases["tlc_trace"] = round(time.time() - t0, 1)
-        if tres.distinct != 64 + len(lines):
-            raise common.ToolError("Trace_C14 evaluated %d states for %d recorded lines" % (tres.distinct, len(lines)))
-        for b in tres.printed():
-            v = line_info[b["id"]]
-            init, acts = hist_parts(v)
-            why = ",".join(sorted(b["bad"]))
-            last = terms.text(acts[-1]) if acts else "list_to_assoc"
-            rep.violation("assoc why=%s after=%s %s" % (why, last, hist_text(init, acts)),
-                          {"kind": "hist", "vector": v, "why": why, "query": hist_query(v, keys)})
         for ln in lines:
             acts = hist_parts(line_info[ln["id"]])[1]
             rep.case(("assoc", acts[-1][1] if acts else "init", len(ln["list"]), tree_height(ln["tree"])))
         rep.traces = len(lines)
-        if not os.environ.get("VERIF_KEEP"):
-            try:
-                os.remove(path)
-            except OSError:
-                pass
     for v in hists[:: max(1, len(hists) // 2)][:2]:
         init, acts = hist_parts(v)
-        rep.sample({"assoc_history": hist_text(init, acts), "final": terms.tla_text(v["v"])})
+        rep.sample({"assoc_history": hist_text(init, acts), "final": terms.text(from_packed(v["v"]))})
     rep.extra["predicates_covered"] = sorted(covered) + ["put_assoc/4", "del_assoc/4", "del_min_assoc/4", "del_max_assoc/4",
                                                          "get_assoc/3", "get_assoc/5", "list_to_assoc/2", "assoc_to_list/2",
                                                          "assoc_to_keys/2", "assoc_to_values/2", "max_assoc/3", "min_assoc/3",
